@@ -229,6 +229,7 @@ def gen_ops(rng, t, n=None, wild=0.08):
     stypes = dict(t.get("stypes", {}))             # current name -> {"kind", "const"} (while the CHECK is still there)
     gens = {c["name"] for c in t["cols"] if c.get("computed")}     # generated columns (by batch key): kept out of keys/checks
     overwritten = set()                                             # original columns replaced by an add_column of the same name
+    dropped_idx = []                                                # indexes dropped so far in this batch
 
     def plain(names):
         return [x for x in names if key.get(x, x) not in gens]
@@ -396,6 +397,8 @@ def gen_ops(rng, t, n=None, wild=0.08):
             cs = rng.sample(pool_, min(len(pool_), rng.choice([1, 1, 2])))
             by_new = rng.random() < 0.1
             nm = "ix_new%d" % len(ops) if rng.random() < 0.93 or not idxs else rng.choice(idxs)
+            if dropped_idx and rng.random() < 0.5:
+                nm = dropped_idx.pop()       # an index dropped earlier in this batch is re-created under the same name
             o = {"op": "create_index", "name": nm, "cols": [c if by_new else key[c] for c in cs], "unique": rng.random() < 0.25}
             ic = [c for c in plain(cur) if tys.get(c) in INTS and c not in retyped and all_int.get(key.get(c, c), True) and c in key and key[c] == c]
             if ic and rng.random() < 0.2:
@@ -408,6 +411,7 @@ def gen_ops(rng, t, n=None, wild=0.08):
         elif k == "drop_index":
             if idxs and rng.random() > wild:
                 ops.append({"op": "drop_index", "name": idxs.pop(rng.randrange(len(idxs)))})
+                dropped_idx.append(ops[-1]["name"])
             elif rng.random() < 0.5:
                 ops.append({"op": "drop_index", "name": "ix_nope"})
     return ops
